@@ -478,6 +478,13 @@ func (b *bodyRun) runLoop(li *loopInfo) {
 	var items []invItem
 	for _, inv := range invs {
 		inv := inv
+		// an invariant that names a local the code no longer has is dropped with
+		// a note (the derived invariant below may still carry the proof); it is
+		// never a reason to stop
+		if msg := b.invResolves(inv, names, stIn, label); msg != "" {
+			e.note("%s: invariant `%s` not used: %s", label, inv.Text, msg)
+			continue
+		}
 		items = append(items, invItem{label: clauseLabel(inv), eval: func(st *State, phiVals map[*ssa.Phi]Value) *smt.Term {
 			var over map[string]specVar
 			if phiVals != nil {
@@ -492,6 +499,9 @@ func (b *bodyRun) runLoop(li *loopInfo) {
 			return e.evalSpecBool(inv, b.specVars(names, over), st, e.entryState(), label+" invariant")
 		}})
 	}
+	var ctrPhi *ssa.Phi
+	var ctrInit *smt.Term
+	var ctrSigned bool
 	// auto-derived invariants: a counter that starts at a constant and is only
 	// incremented by a positive constant stays >= its initial value (checked
 	// like any other invariant, so overflow is not assumed away).
@@ -526,6 +536,17 @@ func (b *bodyRun) runLoop(li *loopInfo) {
 		}
 		_ = w
 		initT := init.T
+		if len(phis) == 1 {
+			step1 := true
+			for k, pred := range h.Preds {
+				if li.blocks[pred] && p.Edges[k].(*ssa.BinOp).Y.(*ssa.Const).Int64() != 1 {
+					step1 = false
+				}
+			}
+			if step1 {
+				ctrPhi, ctrInit, ctrSigned = p, initT, signed
+			}
+		}
 		name := p.Comment
 		if name == "" {
 			name = p.Name()
@@ -649,13 +670,43 @@ func (b *bodyRun) runLoop(li *loopInfo) {
 	for _, it := range items {
 		e.assume(st, it.eval(st, nil))
 	}
+	// Derived invariant of a read-only counting loop ("search loop"): the only
+	// loop-carried value is a counter stepping by one and the body writes
+	// nothing that outlives an iteration.  Then at the head of the iteration
+	// with counter value i every earlier iteration j in [init, i) ran the same
+	// body on the same memory and took a back edge, so everything assumed on
+	// the way (callee postconditions, definitions) and the back-edge path
+	// condition hold with j for i.  Symbols created inside the body are Skolem
+	// functions of the counter (smt.Ctx.FreshParams) so that this
+	// generalisation is meaningful.  The invariant is named by a propositional
+	// placeholder assumed here and defined after the body has been executed.
+	var autoB, ctrT *smt.Term
+	autoOK := ctrPhi != nil && len(writes) == 0 && len(st.ghost) == 0 && !e.noAutoInv
+	if autoOK {
+		ctrT = st.env[ctrPhi].(Scalar).T
+		autoB = c.Fresh(fmt.Sprintf("autoinv_%s_l%d", b.fn.Name(), li.ordinal), smt.Bool)
+		e.assume(st, autoB)
+	}
+	hdrFacts := st.facts
+	hdrRecs := len(st.recs)
+	axBefore := len(e.Axioms)
+	objsBefore := e.objs
 	var dec0 *smt.Term
 	if li.spec != nil && li.spec.Decreases != nil {
 		dec0 = b.e.evalSpecIndex(*li.spec.Decreases, b.specVars(names, nil), st, e.entryState(), label+" decreases")
 	}
 	b.prepared[h] = st
 	b.back[li] = nil
-	b.runRegion(li.order, li)
+	if autoOK {
+		c.FreshParams = append(c.FreshParams, ctrT)
+		func() {
+			defer func() { c.FreshParams = c.FreshParams[:len(c.FreshParams)-1] }()
+			b.runRegion(li.order, li)
+		}()
+		b.defineAutoInv(li, autoB, ctrT, ctrInit, ctrSigned, hdrFacts, hdrRecs, axBefore, objsBefore)
+	} else {
+		b.runRegion(li.order, li)
+	}
 	for _, es := range b.back[li] {
 		// bind the header phis to the back-edge values
 		k := -1
@@ -933,4 +984,114 @@ func markFresh(v Value) {
 			}
 		}
 	}
+}
+
+
+// invResolves evaluates an invariant once at the loop entry state and reports
+// why it cannot be evaluated ("" when it can).
+func (b *bodyRun) invResolves(inv Clause, names map[string]nameBinding, st *State, label string) (msg string) {
+	e := b.e
+	defer func() {
+		if r := recover(); r != nil {
+			if se, ok := r.(specError); ok {
+				msg = se.msg
+				return
+			}
+			panic(r)
+		}
+	}()
+	e.dry++
+	defer func() { e.dry-- }()
+	nax := len(e.Axioms)
+	e.evalSpecBool(inv, b.specVars(names, nil), st.clone(), e.entryState(), label+" invariant")
+	e.Axioms = e.Axioms[:nax]
+	return ""
+}
+
+// defineAutoInv adds the definition of the placeholder assumed at the head of
+// a search loop (see runLoop).
+func (b *bodyRun) defineAutoInv(li *loopInfo, autoB, ctr, init *smt.Term, signed bool, hdrFacts *facts, hdrRecs, axBefore, objsBefore int) {
+	e := b.e
+	c := e.C
+	backs := b.back[li]
+	if len(backs) == 0 {
+		return
+	}
+	for _, es := range backs {
+		if len(es.st.recs) != hdrRecs {
+			return // the body appends to a ghost trace: not a search loop
+		}
+	}
+	inHdr := map[int]bool{}
+	for _, f := range hdrFacts.collect() {
+		inHdr[f.ID] = true
+	}
+	jv := c.BoundVar("it", ctr.Sort)
+	sub := map[*smt.Term]*smt.Term{ctr: jv}
+	var parts []*smt.Term
+	seen := map[int]bool{}
+	add := func(t *smt.Term) {
+		if t.IsTrue() || seen[t.ID] {
+			return
+		}
+		seen[t.ID] = true
+		parts = append(parts, c.Subst(t, sub))
+	}
+	for _, a := range e.Axioms[axBefore:] {
+		if smt.Mentions(a, ctr) {
+			add(a)
+		}
+	}
+	var conts []*smt.Term
+	for _, es := range backs {
+		for _, f := range es.st.facts.collect() {
+			if !inHdr[f.ID] {
+				add(f)
+			}
+		}
+		conts = append(conts, es.st.guard)
+	}
+	add(c.Or(conts...))
+	body := c.And(parts...)
+	// objects allocated inside the body have one address per symbolic
+	// iteration; a generalised fact keyed by such an address would conflate
+	// iterations, so give up if one occurs
+	if e.objs > objsBefore && mentionsLocalAddr(body, objsBefore, e.objs) {
+		e.note("loop%d: derived invariant not used (the body allocates objects whose addresses occur in assumptions)", li.ordinal)
+		return
+	}
+	var rng *smt.Term
+	if signed {
+		rng = c.And(c.BVSle(init, jv), c.BVSlt(jv, ctr))
+	} else {
+		rng = c.And(c.BVUle(init, jv), c.BVUlt(jv, ctr))
+	}
+	e.Axioms = append(e.Axioms, c.Implies(autoB, c.Forall([]*smt.Term{jv}, c.Implies(rng, body))))
+	e.AutoInvs++
+}
+
+// mentionsLocalAddr reports whether t contains the address constant of an
+// object numbered in (lo, hi].
+func mentionsLocalAddr(t *smt.Term, lo, hi int) bool {
+	seen := map[int]bool{}
+	var rec func(x *smt.Term) bool
+	rec = func(x *smt.Term) bool {
+		if seen[x.ID] {
+			return false
+		}
+		seen[x.ID] = true
+		if x.Op == "bv" && x.Sort.W == 64 {
+			v := -x.SVal()
+			if v > int64(lo) && v <= int64(hi) {
+				return true
+			}
+		}
+		for _, a := range x.Args {
+			if rec(a) {
+				return true
+			}
+		}
+		return false
+	}
+	return rec(t)
 }
